@@ -304,16 +304,25 @@ FontForms     == IdentityForms \cup BaseForms \cup CMapNameForms \cup DictForms
 FormClass(f)  == IF f \in IdentityForms THEN "identity" ELSE IF f \in BaseForms THEN "base"
                  ELSE IF f \in CMapNameForms THEN "cmapname" ELSE "dict"
 
+\* A separator that mixes line ends / comments with FF / NUL belongs to two classes ("a+b"): it is taken only when
+\* both the token separation and the white-space character set are right.
 StyleClass(sty) ==
     CASE sty.k = "canon" -> "canon"
-      [] sty.k = "gap"   -> IF SeqSet(sty.s) \cap FfNulAtoms # {} THEN "grammar.ff-nul"
-                            ELSE IF sty.s # <<>> /\ SeqSet(sty.s) \subseteq BlankAtoms THEN "grammar.blank"
-                            ELSE IF sty.a \in BfGaps THEN "grammar.sep.bf" ELSE "grammar.sep.hdr"
+      [] sty.k = "gap"   -> LET ffnul == SeqSet(sty.s) \cap FfNulAtoms # {}
+                                sepc  == sty.s = <<>> \/ SeqSet(sty.s) \cap (EolAtoms \cup {"cmt"}) # {}
+                                reg   == IF sty.a \in BfGaps THEN "grammar.sep.bf" ELSE "grammar.sep.hdr"
+                            IN IF sepc /\ ffnul THEN reg \o "+grammar.ff-nul"
+                               ELSE IF sepc THEN reg ELSE IF ffnul THEN "grammar.ff-nul" ELSE "grammar.blank"
       [] sty.k = "hex"   -> "grammar.hex-ws"
       [] sty.k = "empty" -> "grammar.empty-section"
       [] sty.k = "head"  -> IF sty.a \in ExtraKeyHeads THEN "grammar.hdr-key" ELSE "grammar.hdr-form"
       [] sty.k = "font"  -> "font.enc." \o FormClass(sty.a)
       [] OTHER -> "?"
+\* the classes of a style, for "is it a listed one"
+StyleClassIn(sty, known) ==
+    IF sty.k = "gap" /\ SeqSet(sty.s) \cap FfNulAtoms # {} /\ (SeqSet(sty.s) \cap (EolAtoms \cup {"cmt"}) # {})
+    THEN "grammar.ff-nul" \in known \/ (IF sty.a \in BfGaps THEN "grammar.sep.bf" ELSE "grammar.sep.hdr") \in known
+    ELSE StyleClass(sty) \in known
 
 \* ---- impl-shaped: does lopdf's grammar take the program, does get_font_encoding take the CMap?
 \* gdev switches (TRUE = as the code is):
